@@ -58,8 +58,54 @@ func sourceSeeds(fi *FuncInfo) []*types.Var {
 	if nType >= 1 && !fi.Obj.Exported() && fi.Obj.Type().(*types.Signature).Recv() == nil {
 		return ids
 	}
+	// a private statement constructor that is handed the source expression alone (`indexLoop(index, sourceID, body)`):
+	// its *JenID parameter is the source when every call passes a source seed of the caller
+	if nType == 0 && len(ids) > 0 && !fi.Obj.Exported() && sig.Recv() == nil && theProg != nil && !seedBusy[fi] {
+		seedBusy[fi] = true
+		defer delete(seedBusy, fi)
+		var out []*types.Var
+		for _, prm := range ids {
+			idx := -1
+			for i := 0; i < sig.Params().Len(); i++ {
+				if sig.Params().At(i) == prm {
+					idx = i
+				}
+			}
+			n, all := 0, true
+			for _, cs := range theProg.Calls() {
+				f, ok := cs.Callee.(*types.Func)
+				if !ok || f.Origin() != fi.Obj.Origin() || cs.Encl == nil {
+					continue
+				}
+				n++
+				okArg := false
+				if idx < len(cs.Call.Args) {
+					if aid, isID := ast.Unparen(cs.Call.Args[idx]).(*ast.Ident); isID {
+						for _, s := range sourceSeeds(cs.Encl) {
+							if cs.Pkg.TypesInfo.ObjectOf(aid) == s {
+								okArg = true
+							}
+						}
+					}
+				}
+				if !okArg {
+					all = false
+				}
+			}
+			if n > 0 && all {
+				out = append(out, prm)
+			}
+		}
+		return out
+	}
 	return nil
 }
+
+// theProg is the program under analysis (set by Load); seedBusy guards the recursion of sourceSeeds.
+var (
+	theProg  *Prog
+	seedBusy = map[*FuncInfo]bool{}
+)
 
 // carriesCode: only values that can hold (a name of) generated code propagate derivation.
 func carriesCode(t types.Type) bool {
